@@ -166,25 +166,22 @@ class Exec:
             if not isinstance(res.value, Exception):
                 from simkit import fnlib
 
-                if op.get("interrupt_at") is not None:
-                    # ... and interrupts the (slow) view computation half-way (Ctrl-C)
-                    fnlib.TRIP[0] = int(op["interrupt_at"])
+                # ... and may interrupt the (slow) view computation half-way (Ctrl-C)
+                trip = fnlib.Tripper(self.model, op["interrupt_at"] if op.get("interrupt_at") is not None else 10**9)
                 try:
-                    _ = res.value.variables
-                    _ = res.value.fluxes
-                    if op.get("more"):
-                        _ = res.value.get_right_hand_side()
-                        _ = res.value.get_producers(ref.names[0], scaled=True)
-                        _ = res.value.get_consumers(ref.names[-1], scaled=True)
+                    with trip:
+                        _ = res.value.variables
+                        _ = res.value.fluxes
+                        if op.get("more"):
+                            _ = res.value.get_right_hand_side()
+                            _ = res.value.get_producers(ref.names[0], scaled=True)
+                            _ = res.value.get_consumers(ref.names[-1], scaled=True)
                 except fnlib.SimInterrupt:
                     self.counters["fault_fired:view_read_interrupted"] += 1
                     self.trace.add("read_views", "interrupted")
                 except Exception as e:  # noqa: BLE001
-                    fnlib.TRIP[0] = None
                     self.trace.add("read_views", "exc", type(e).__name__)
                     return
-                finally:
-                    fnlib.TRIP[0] = None
             self.counters["read_views_between_segments"] += 1
             if self.ctx == "param":
                 self.counters["probe:views_read_between_parameter_change_and_next_segment"] += 1
